@@ -110,10 +110,21 @@ class Masks(Relation):
             tag = f'{cls} mode={mode}'
             data = np.asarray(mask.data)
             ctx.check(fp(reg) == fp_reg, f'{tag} | to_mask modifies the region')
+            # a returned mask is the caller's to edit: doing so must not
+            # reach the mask that the next call returns
+            keep = data.copy()
             again = reg.to_mask(mode) if mode == 'center' else reg.to_mask(
                 mode, n)
             ctx.check(np.array_equal(np.asarray(again.data), data),
                       f'{tag} | a second to_mask call gives a different mask')
+            if again.data.size and again.data.flags.writeable:
+                again.data[...] = -7.25
+                third = reg.to_mask(mode) if mode == 'center' else reg.to_mask(
+                    mode, n)
+                ctx.check(np.array_equal(np.asarray(third.data), keep)
+                          and np.array_equal(data, keep),
+                          f'{tag} | editing a returned mask changes another '
+                          'mask of the same region')
             ctx.check(data.shape == (ny, nx),
                       f'{tag} | mask shape differs from bounding-box shape',
                       f'{data.shape} vs {(ny, nx)}')
